@@ -588,6 +588,41 @@ def clause_g(c: Check):
                 c.bad('C09-g', 'here-document/result', 'the here-document is not built from its lines (%s)' % util.describe(p.val),
                       f.loc())
     c.floor('C09-g', 'completed here-documents analysed', n_ret, 2)
+    # the text of the body: `_sdv_from_lines(lines)` parses, for every list of lines, exactly l0 '\n' l1 '\n' ...
+    # (symbolic strings: each li stands for any string, the empty one included)
+    from ..absint import StrCat
+
+    class HS(Hooks):
+        def inline(self, fd, st):
+            return fd.module.name.startswith('exactly_lib.util.str_')
+
+    lp = mk.positional_params()[0].arg
+    n_lists = 0
+    for width in (0, 1, 2, 3):
+        it = Interp(ix, fo, HS())
+        syms = [Sym('line%d' % i) for i in range(width)]
+        lines = ListVal([StrCat([x]) for x in syms])
+        want_parts = []
+        for x in syms:
+            want_parts += [x, K('\n')]
+        n_lists += 1
+        for p in it.run_function(mk, {lp: lines}):
+            c.count()
+            if p.kind != 'return':
+                c.bad('C09-g', 'here-document/text/%d-lines' % width, '_sdv_from_lines raises for %d lines' % width, mk.loc())
+                continue
+            o = p.val.origin if isinstance(p.val, Sym) else None
+            text = o[2][0] if o and o[0] == 'call' and o[1].endswith(':string_sdv_from_string') and len(o[2]) == 1 else None
+            sc = text if isinstance(text, StrCat) else (StrCat([text]) if isinstance(text, K) and isinstance(text.v, str) else None)
+            c.require(sc is not None, 'C09-g: the text a here-document of %d lines is parsed from is not understood (%s)' % (
+                width, util.describe(text) if text is not None else util.describe(p.val)))
+            empties = [x for e in p.trace if e.kind == 'str-empty' for x in e.data]
+            got, want = sc.key(empties), StrCat(want_parts).key(empties)
+            c.expect(got == want, 'C09-g', 'here-document/text/%d-lines' % width,
+                     'the body of a here-document with %d lines%s is parsed from the text %r (expected every line '
+                     'followed by a new-line: %r)' % (
+                         width, ' (%d of them empty)' % len(empties) if empties else '', sc, StrCat(want_parts)), mk.loc())
+    c.floor('C09-g', 'line lists the text of a here-document is evaluated on', n_lists, 4)
 
 
 # ---------------------------------------------------------------- h
@@ -597,19 +632,54 @@ def clause_h(c: Check):
     is_option demands an unquoted token, and _Equals.matches honours that demand"""
     ix, fo = c.ix, c.fo
     om = ix.func('exactly_lib.util.cli_syntax.option_parsing:matches')
-    tsp = ix.module('exactly_lib.section_document.element_parsers.token_stream_parser')
+    ioa = ix.func('exactly_lib.section_document.element_parsers.misc_utils:is_option_argument')
+    from ..core import ancestors
+
+    def dominated_by_source_string_guard(f, node, depth=0) -> bool:
+        """the call is reached only after `is_option_argument(<token>.source_string)` held: an earlier statement of
+        the function body is `if not is_option_argument(X.source_string): return / raise`; or the function is
+        module-private and every one of its call sites is dominated in that way"""
+        if f is None or depth > 4:
+            return False
+        top = node
+        for a in ancestors(node):
+            if a is f.node:
+                break
+            top = a
+        body = f.node.body
+        if top in body:
+            for stmt in body[:body.index(top)]:
+                if not (isinstance(stmt, ast.If) and isinstance(stmt.test, ast.UnaryOp) and isinstance(stmt.test.op, ast.Not)
+                        and isinstance(stmt.test.operand, ast.Call) and stmt.body
+                        and isinstance(stmt.body[-1], (ast.Return, ast.Raise)) and not stmt.orelse):
+                    continue
+                call = stmt.test.operand
+                if ix.callee(f.module, f, call) == ioa and len(call.args) == 1:
+                    a = util.resolve_temp(f, call.args[0])
+                    if isinstance(a, ast.Attribute) and a.attr == 'source_string':
+                        return True
+        if f.cls is None and f.name.startswith('_') and f.parent is None:
+            sites = util.call_sites_of(ix, f)
+            return bool(sites) and all(dominated_by_source_string_guard(s_.func, s_.node, depth + 1) for s_ in sites)
+        return False
+
     n = 0
-    for node in ast.walk(tsp.tree):
-        if isinstance(node, ast.Call) and len(node.args) == 2 and ix.callee(tsp, tsp.enclosing_func(node), node) == om:
-            n += 1
-            a = node.args[1]
-            f = tsp.enclosing_func(node)
-            a = util.resolve_temp(f, a)
-            c.expect(isinstance(a, ast.Attribute) and a.attr == 'source_string', 'C09-h',
-                     'option-match@%s' % (f.key if f else tsp.name),
-                     'an option is matched against %s, not against the source string of the token (a quoted word that '
-                     'spells an option would be taken for the option)' % unparse(a), '%s:%d' % (tsp.relpath, node.lineno))
-    c.floor('C09-h', 'option matches in the token parser', n, 4)
+    for site in util.call_sites_of(ix, om):
+        node, f, m = site.node, site.func, site.module
+        if len(node.args) != 2:
+            continue
+        n += 1
+        a = util.resolve_temp(f, node.args[1])
+        ok = isinstance(a, ast.Attribute) and a.attr == 'source_string'
+        how = 'source-string'
+        if not ok:
+            ok = dominated_by_source_string_guard(f, node)
+            how = 'after is_option_argument(<token>.source_string)'
+        c.expect(ok, 'C09-h', 'option-match@%s' % site.where,
+                 'an option is matched against %s - not against the source string of the token, and not after the '
+                 'source string has been seen to have option syntax (a quoted word that spells an option would be '
+                 'taken for the option)' % unparse(a), '%s:%d' % (m.relpath, node.lineno), detail=how)
+    c.floor('C09-h', 'option matches', n, 7)
     TM = 'exactly_lib.util.parse.token_matchers'
     eq = ix.cls(TM + ':_Equals')
     init = ix.class_member(eq, '__init__')
